@@ -10,6 +10,7 @@ def dl(s):
 class Suci(Stream):
     name = "suci"
     sub = "suci"
+    retained_field = "buf"
     requires = ["Dec", "SuciEnc", "Suci", "C11Check"]
     shard = 500
 
